@@ -169,6 +169,7 @@ def run_case(case, rec):
             rec.check(sub, False, detail)
         rec.check('C18.fuzz.replayed', True)
         return False
+    case = dict(case, nodes=iocommon.spaced_labels(case['nodes'], case['delim']))
     d = Driver(case)
     accepted = []
     for op in case['ops']:
